@@ -13,7 +13,7 @@ import sys
 import z3
 
 from . import sym
-from .sym import (V, VInt, VBool, VStr, VRef, VNone, VOpt, VTuple, VRec, VList, VDict, VFun, Unsupported,
+from .sym import (V, VInt, VBool, VStr, VRef, VNone, VOpt, VTuple, VRec, VList, VDict, VFun, VMap, VKey, Unsupported,
                   lift, tobool, toint, tostr, veq, vnot, vand, vor, vite, fresh, fresh_name, is_sym,
                   TInt, TBool, TStr, TRef, TList, TTuple, TOpt, TNone, TRec, INT, BOOL, STR, REF, IntS)
 from .heap import Heap, DATA_KEYS
@@ -648,6 +648,8 @@ class Exec(object):
     # ---------------- assignment ----------------
     def assign(self, tgt, v, st):
         if isinstance(tgt, ast.Name):
+            if isinstance(v, VMap) and v.prefix and isinstance(st.env.get(tgt.id), VMap) and not st.env[tgt.id].prefix:
+                raise Unsupported("a sub-dict assigned to the name of the whole dict")
             st.env[tgt.id] = v
             return
         if isinstance(tgt, (ast.Tuple, ast.List)):
@@ -683,6 +685,9 @@ class Exec(object):
                     return
             base = self.ev(_load(tgt.value), st)
             idx = self.ev(tgt.slice, st)
+            if isinstance(base, VMap):
+                self.assign(tgt.value, base.store(idx, v), st)
+                return
             if isinstance(base, VList) or isinstance(base, (list,)):
                 base = lift(base) if not isinstance(base, VList) else base
                 i = self.norm_index(base, idx, st, tgt)
@@ -891,6 +896,9 @@ class Exec(object):
         if isinstance(base, VOpt):
             self.safety(st, node, z3.Not(base.isnone), "TypeError", "notnone")
             base = base.val
+        if isinstance(base, VMap):
+            self.safety(st, node, base.has(idx).t, "KeyError", "key_present")
+            return base.get(idx)
         if isinstance(base, VRec) and base.cls == "params":
             if not isinstance(idx, str) or idx not in base.fields["has"]:
                 raise Unsupported("params[%r] not declared in the contract" % (idx,))
@@ -1108,6 +1116,8 @@ class Exec(object):
             if x not in DATA_KEYS:
                 raise Unsupported("data key %r" % x)
             return st.heap.has(cont[1], x)
+        if isinstance(cont, VMap):
+            return cont.has(x)
         if isinstance(cont, VRec) and cont.cls == "params":
             if not isinstance(x, str):
                 # e.g. `gf_separator in params` with a symbolic/constant string value
@@ -1666,6 +1676,8 @@ class Exec(object):
             st.assume(z3.And(0 <= r, r < lst.n, tobool(veq(lst.get(r), x)),
                              z3.ForAll([j], z3.Implies(z3.And(0 <= j, j < r), z3.Not(tobool(veq(lst.get(j), x)))))))
             return VInt(r)
+        if isinstance(obj, VMap) and meth == "get" and len(args) == 2:
+            return obj.get_default(args[0], args[1])
         if isinstance(obj, (VStr, str)):
             return self.str_method(obj, meth, args, st, node)
         if isinstance(obj, VRec) and obj.cls == "dict" and meth in ("keys", "values", "items"):
